@@ -158,9 +158,7 @@ func TestVerifC03BlacklistSweepRace(t *testing.T) {
 					break
 				}
 				// restart of the address-list component on the same (persisted) storage
-				nipm := security.NewIPManager(w.n.Store, w.n.ctx)
-				w.n.IPM = nipm
-				w.n.Auth.ipManager = nipm
+				w.restartAddressList()
 				w.trace = append(w.trace, "restart of the address-list component")
 				run.Count("ipmanager_restarts", 1)
 			}
